@@ -13,10 +13,16 @@ fn one<T: FEl>(tr: &mut Trace, rng: &mut Rng, n: usize, class: &str, trailing: &
     let mut shape = vec![n];
     shape.extend_from_slice(trailing);
     let data = gen::data::<T>(rng, &shape, dclass);
-    let dr = real(&data, Lay::C);
-    let xr = real1(&x, Lay::C);
+    // a third of the builds use non-standard memory layouts of data and axis (views)
+    let (store, dlay, xlay) = match rng.below(6) {
+        0 => (Store::View, *rng.pick(&[Lay::Rev, Lay::Perm, Lay::Strided, Lay::F]), *rng.pick(&[Lay::C, Lay::Rev, Lay::Strided])),
+        1 => (Store::Owned, *rng.pick(&[Lay::F, Lay::Perm]), Lay::C),
+        _ => (Store::Owned, Lay::C, Lay::C),
+    };
+    let dr = real(&data, dlay);
+    let xr = real1(&x, xlay);
     let dynamic = rng.below(6) == 0;
-    let cfg = Cfg1 { x: if xdef { None } else { Some(&xr) }, data: &dr, dtag: dtag_for(shape.len(), dynamic), store: Store::Owned };
+    let cfg = Cfg1 { x: if xdef { None } else { Some(&xr) }, data: &dr, dtag: dtag_for(shape.len(), dynamic), store };
     let qin = gen::queries_in_range(rng, &x, if few { 3 } else { 10 });
     let qout = gen::queries_outside(rng, &x, 50.0, if few { 3 } else { 8 });
     for ex in [false, true] {
@@ -39,7 +45,7 @@ fn one<T: FEl>(tr: &mut Trace, rng: &mut Rng, n: usize, class: &str, trailing: &
             b.q(tr, Entry::Scalar, "-", &scalar_q(q0), Lay::C);
         }
         b.q(tr, Entry::Interp, "-", &scalar_q(q0), Lay::C);
-        b.q(tr, Entry::Into, "-", &scalar_q(q0), Lay::C);
+        b.q(tr, Entry::Into, "-", &scalar_q(q0), *rng.pick(&[Lay::C, Lay::F, Lay::Rev, Lay::Window]));
         // a 2-d query through the general path
         if qin.len() >= 4 {
             let qs: Vec<T> = (0..4).map(|_| *rng.pick(&qin)).collect();
